@@ -82,6 +82,49 @@ CLAIMED["C17"] = dict(
     design="DESIGN.md#c17",
 )
 
+EMOD_TIE = (
+    " Tie: generated modules and request sets run through the real RewritingContext.apply(); the Lean listing "
+    "specification is evaluated on the real before/after IR (oracle), every recorded insert/delete is replayed on "
+    "the Lean IR model and compared as a whole canonical IR (correspondence)."
+)
+EMOD_TECH = "Lean 4 proof (frame lemmas + induction over the operation structure / edit lists) + differential correspondence per operation + executable-spec oracle on the real output"
+
+CLAIMED["C01"] = dict(
+    engine="E-modify",
+    text="Lean theorems for every IR, patch and edit list: IR.insert splices exactly the patch bytes over the replaced "
+    "range of the block's interval and IR.delete removes exactly the requested range; no other byte of any interval "
+    "changes through splitting, joining, removing, clean-up and all CFG / aux-data fix-ups (frame lemmas through "
+    "the whole operation); the running-offset loop of _apply_modifications over sorted disjoint edits computes "
+    "exactly the plain simultaneous splice (induction over the edit list, block placed anywhere in its interval)."
+    + EMOD_TIE + " The offsets used by _apply_modifications are compared with the running-offset model. Partial: the "
+    "alignment padding of join_byte_intervals and the block-offset bookkeeping that links one operation to the next "
+    "are covered by the oracle and the correspondence, not by a theorem.",
+    technique=EMOD_TECH,
+    design="DESIGN.md#c01",
+)
+CLAIMED["C02"] = dict(
+    engine="E-modify",
+    text="Lean theorems for every IR: split_block moves no symbol (at_end symbols follow the tail and designate the "
+    "same interval offset) and leaves no end symbol on the head; join_blocks moves no symbol under the premise the "
+    "callers establish by splitting first; remove_block sends references to the fresh proxy / next start / previous "
+    "end exactly as documented and leaves no symbol on a removed block." + EMOD_TIE + " Partial: the composition over "
+    "a whole insert/delete (needs the layout invariant 'order-adjacent = physically adjacent') is decided by the "
+    "oracle on the real output, not by a theorem.",
+    technique=EMOD_TECH,
+    design="DESIGN.md#c02",
+)
+CLAIMED["C04"] = dict(
+    engine="E-modify",
+    text="Lean theorems for every table and IR: edit_byte_interval keeps exactly the entries outside the replaced range, "
+    "shifts those behind it by the size change and leaves nothing inside the range or beyond the new end (symbolic "
+    "expressions and interval-keyed tables); split_block / join_blocks re-key block-keyed entries without moving "
+    "them (same interval, same offset) and the resulting tables are exactly the re-keyed ones; remove_block drops "
+    "exactly the removed block's entries." + EMOD_TIE + " Partial: patch expressions (assembler output) and "
+    "join_byte_intervals' table moves are covered by the oracle only.",
+    technique=EMOD_TECH,
+    design="DESIGN.md#c04",
+)
+
 ALL = ["C%02d" % i for i in range(1, 21)]
 
 NOT_YET = "engine designed in DESIGN.md but its model/proofs are not built yet in this revision; not claimed"
@@ -122,6 +165,7 @@ def main():
         "engines": [
             {"name": "E-abi", "path": "lean/GtirbVerif/Model/Abi", "serves_properties": ["C16", "C17"], "kind_free_text": "abstract machine + Lean models of _allocate_patch_registers, the four prologue/epilogue generators and CallPatch; tables regenerated from abi._ABIS"},
             {"name": "E-adt", "path": "lean/GtirbVerif/Model/Adt", "serves_properties": ["C20", "C09"], "kind_free_text": "Lean models of ReferenceCache, ReturnEdgeCache, make_return_cache, BlockOrdering, OffsetMapping, IdentitySet with refinement proofs"},
+            {"name": "E-modify", "path": "lean/GtirbVerif/Model/IR", "serves_properties": ["C01", "C02", "C04"], "kind_free_text": "abstract GTIRB IR + Lean models of edit_byte_interval, split_block, are_joinable/join_blocks, remove_block, insert, delete, _cleanup_modified_blocks, the offset loop of _apply_modifications; listing specification (Spec/Listing*.lean)"},
             {"name": "E-dwarf", "path": "lean/GtirbVerif/Model/Dwarf", "serves_properties": ["C14", "C15"], "kind_free_text": "Lean model of dwarf/_encoders,_encodable,expr,cfi,cfi_eval + regenerated tables"},
         ],
         "checks": checks,
